@@ -25,6 +25,17 @@ structure Env where
 
 def b2r (p : Prop) [Decidable p] : ℝ := if p then 1 else 0
 
+/-- C library functions by name; anything else is a user / helper function of the environment -/
+def applyFn (ρ : Env) (f : List Char) (xs : List ℝ) : ℝ :=
+  if f = "pow".toList then (match xs with | [x, y] => x ^ y | _ => 0)
+  else if f = "exp".toList then (match xs with | [x] => Real.exp x | _ => 0)
+  else if f = "sqrt".toList then (match xs with | [x] => Real.sqrt x | _ => 0)
+  else if f = "log".toList then (match xs with | [x] => Real.log x | _ => 0)
+  else if f = "log10".toList then (match xs with | [x] => Real.log x / Real.log 10 | _ => 0)
+  else if f = "fmax".toList then (match xs with | [x, y] => max x y | _ => 0)
+  else if f = "fmin".toList then (match xs with | [x, y] => min x y | _ => 0)
+  else ρ.fn f xs
+
 mutual
   def evalE (ρ : Env) : Expr → ℝ
     | .num s => numVal s
@@ -47,15 +58,7 @@ mutual
       else if op = ['|', '|'] then b2r (evalE ρ a ≠ 0 ∨ evalE ρ b ≠ 0)
       else 0
     | .cond c a b => if evalE ρ c ≠ 0 then evalE ρ a else evalE ρ b
-    | .call f args =>
-      if f = "pow".toList then (match evalArgs ρ args with | [x, y] => x ^ y | _ => 0)
-      else if f = "exp".toList then (match evalArgs ρ args with | [x] => Real.exp x | _ => 0)
-      else if f = "sqrt".toList then (match evalArgs ρ args with | [x] => Real.sqrt x | _ => 0)
-      else if f = "log".toList then (match evalArgs ρ args with | [x] => Real.log x | _ => 0)
-      else if f = "log10".toList then (match evalArgs ρ args with | [x] => Real.log x / Real.log 10 | _ => 0)
-      else if f = "fmax".toList then (match evalArgs ρ args with | [x, y] => max x y | _ => 0)
-      else if f = "fmin".toList then (match evalArgs ρ args with | [x, y] => min x y | _ => 0)
-      else ρ.fn f (evalArgs ρ args)
+    | .call f args => applyFn ρ f (evalArgs ρ args)
     | .idx (.var a) (.var i) => ρ.arr a i
     | .idx _ _ => 0
     | .pair a _ => evalE ρ a
